@@ -159,7 +159,7 @@ def shards(tier, prop):
                 for o3 in R:
                     out.append({'fn': 'hist3', 'pin': {'o1': o1, 'o2': o2, 'o3': o3}, 'cond_timeout': 120, 'path_timeout': 20})
     else:
-        for o1 in R:
+        for o1 in (0, 2, 3):            # a history that starts with release/advance on the initial state is a depth-3 history
             for o2 in R:
                 for o3 in R:
                     for o4 in R:
